@@ -377,6 +377,36 @@ def check_C15(tier: str, seed: int) -> int:
         if behs:
             out.add_sample({"kind": "replayed_context_behaviour", "events": [e["ev"] for e in behs[len(behs) // 2]]})
         # (3) code -> spec: programs run inside random nestings of the scopes, validated against Ref.tla
+        # code -> spec on the repository's OWN tests: scope events recorded by the guarded hook, validated against Context.tla
+        import shutil as _sh
+        import tempfile as _tf
+
+        from . import ctxtrace
+
+        sc = _tf.mkdtemp(prefix="verif-ctx-")
+        try:
+            recs, tail, prc = ctxtrace.record(ctxtrace.QUICK_MODULES if quick else ctxtrace.THOROUGH_MODULES, sc)
+            if prc not in (0, 1):
+                out.machinery(f"pytest with hooks on failed (rc={prc}): {tail}")
+            results, cst = ctxtrace.validate(recs, sc)
+            nrej = 0
+            for r in results:
+                if r["verdict"] == "ok":
+                    continue
+                nrej += 1
+                out.violation({"kind": "context-trace", "tests": r["tests"][:5], "events": r["events"][:r["line"] + 1][-40:],
+                               "failing_event": r["line"], "spec_state_before": r["expected_state"]},
+                              f"scope events of repository test {r['tests'][0]} are not a behaviour of Context.tla "
+                              f"(event {r['line']}: {json.dumps(r['events'][r['line'] - 1])})")
+            cst["rejected_traces"] = nrej
+            cst["pytest_tail"] = tail[-160:]
+            out.coverage["repository_test_traces"] = cst
+            out.judged += cst["tests_with_events"]
+            out.coverage["states"] = out.coverage.get("states", 0) + cst["tlc_states"]
+            out.coverage["transitions"] = out.coverage.get("transitions", 0) + cst["tlc_transitions"]
+            out.coverage["traces_validated_against_impl"] = out.coverage.get("traces_validated_against_impl", 0) + cst["tests_with_events"]
+        finally:
+            _sh.rmtree(sc, ignore_errors=True)
         stage_traces(out, profile="c15", n=500 if quick else 15000,
                      clauses=["val", "sh", "const", "share", "base", "cr", "grad", "track", "np_share"])
     except tlc.MachineryError as e:
